@@ -317,6 +317,11 @@ CHECKS = {
     technique='runtime monitoring: process-level observation of worker processes under an address-space limit (how each query ended: answer, Prolog error, time-out, machine panic, death of the process), plus cheap result checks',
     text='Nine term shapes (long list, right- and left-nested structures, deep unary nesting, deep list nesting, long string, arity-255 structure with deep arguments, conjunction chain, operator chain) of 10^3 and 10^5 nodes (thorough: up to 3*10^6) are built inside the machine and put through 16 operations each (copy, comparison and unification with a copy, occurs-check unification, ground, term_variables, assert and retrieve, findall copy, writing, write-then-read, throw/catch, global variables, =.., subsumes_term, file round trip), 8 list operations (length, reverse, sort, msort, append, nth1, sum, keysort) and 5 long-atom / huge-integer operations; every query runs alone in a worker with an 8 GiB address-space limit; a panic or the death of the worker is a violation, results are compared where they are cheap to know.',
     note='Time-outs and Prolog errors are accepted outcomes; out-of-memory kills of a worker are reported as inconclusive, not as violations. Quick tier: 471 operations, sizes 10^3 and 10^5.'),
+ 'C30': dict(
+    level='exploration',
+    technique='runtime monitoring with fault injection: the verif hook fails the k-th heap growth attempt (transiently, or persistently in 1 case of 8) while the residual free space before the query moves the failure over the allocation sites; process outcome, caught error and a probe battery are observed',
+    text='13 workloads (long list, structure-building recursion, copy_term, findall of 6*10^4 solutions, assertz of a big term, atom/string conversion and append, number_codes of a 10^5-digit number, bignum multiplication, reading a big term from chars, sort, bagof, format_//2, error construction with a big culprit) are run as the first query of a fresh machine with r free cells left (r swept over 10-30 values) and the k-th growth attempt failed (k = 1..8); the goal must end in a caught error(resource_error(memory), _) (a transient failure may also be survived by a retry; a failure that hits the harness code around the goal must surface as the same error), the process must not panic or die, and 8 probe goals run afterwards with the hook disarmed must give their reference answers; every 9th case injects into the 2nd-4th query of a machine.',
+    note='Known findings: K7 (failure while run_query sets the query up: panic or garbage ball), K7b (later queries: garbage ball), K53 (persistent exhaustion: documented double-fault panic). Only heap growth is failed; Vec/arena allocation failure aborts by Rust semantics and is outside the property.'),
 }
 
 NOT_APPLICABLE_REASON_UNBUILT = ('check designed in DESIGN.md but not built/validated yet in this session; '
